@@ -38,6 +38,7 @@ def configs(tier):
     if not q:
         out.append(("sphdist_shift360", 0, ("deg", "deg")))
     out.append(("eq2xyz", 1, ("deg", "deg")))
+    out.append(("fpclip", 1, ("deg", "rad")))
     return out
 
 
@@ -203,8 +204,38 @@ def _check_sep(cx, what, r, p, out_unit, uv=None):
     cx.check_eq("%s: cos(result) = unit-vector dot product (the great-circle angle)" % what, cr, _dot(p, uv))
 
 
+def harness_fpclip(cx, cfg):
+    """gcirc over IEEE floats (single precision: the products do not finish at double width): whatever the
+    five sines and cosines round to inside [-1, 1], the value handed to arccos lies in [-1, 1], so the result
+    is finite.  sin/cos are stubs returning arbitrary floats in [-1, 1] (an over-approximation: no relation
+    between them is assumed), arccos records its argument."""
+    import z3
+    sort = z3.Float32()
+    co = loader.Loader().get("esutil.coords")
+    k = [0]
+    handed = []
+
+    def unit(a, out=None):
+        k[0] += 1
+        return symnp.array([cx.fp("t%d_%d" % (k[0], i), -1.0, 1.0, sort=sort) for i in range(a.size)])
+
+    def acos(a, out=None):
+        handed.extend(a.tolist())
+        k[0] += 1
+        return symnp.array([cx.fp("acos%d_%d" % (k[0], i), 0.0, 3.1415927, sort=sort) for i in range(a.size)])
+    co.sin, co.cos, co.arccos = unit, unit, acos
+    co.deg2rad = lambda a, out=None: a
+    co.gcirc(10.0, 20.0, 190.0, -20.0)
+    cx.check("gcirc (IEEE arithmetic): arccos is called once per pair", len(handed) == 1)
+    for v in handed:
+        cx.check("gcirc (IEEE arithmetic): the value handed to arccos lies in [-1, 1] whatever the sines and cosines round to (finite result)",
+                 sym_and(v >= -1.0, v <= 1.0))
+
+
 def harness(cx, cfg):
     what, n, units = cfg
+    if what == "fpclip":
+        return harness_fpclip(cx, cfg)
     trig.install()
     try:
         co = loader.Loader().get("esutil.coords")
@@ -225,6 +256,14 @@ def harness(cx, cfg):
             xr, yr, zr = co.eq2xyz(trig.deg2rad(ra), trig.deg2rad(dec), units="rad")
             for a, b in zip((x, y, z), (xr.tolist()[0], yr.tolist()[0], zr.tolist()[0])):
                 cx.check_eq("eq2xyz: radian input gives the same vector", a, b)
+            # conditioning probe: the statement's accuracy near the poles needs cos(dec) itself; a cosine
+            # recovered as sqrt(1 - sin^2) loses half the digits there (settled by the replay near the poles)
+            from vf import poly
+            for nm in ("ra", "dec"):
+                s_, c_ = trig.pair(nm)
+                for wname, (kind, rad) in list(cx.witness_defs.items()):
+                    if kind == "sqrt" and poly.equal(rad, symx.real_term(c_ * c_), cx.rules):
+                        cx.check("eq2xyz: no cosine recovered from the sine through sqrt(1 - sin^2) (ill-conditioned at the poles)", False)
             return
         pts = _points(cx, n, unit_in)
         uvs = None
@@ -275,6 +314,18 @@ def harness(cx, cfg):
                     ("(a.b)^2", [a[0] * b[0] + a[1] * b[1] + a[2] * b[2]]),
                     ("|a x b|^2", list(cr_)),
                 ])
+        if uvs is not None and len(uvs.calls) >= 2 and n <= 1:
+            # conditioning probe: the squared chord must be a sum of squared coordinate differences as written
+            # (|a-b|^2 = 2 - 2 a.b holds only through |a| = |b| = 1 and cancels catastrophically for close
+            # points); a radicand that equals it only modulo the unit-length relations is a candidate that the
+            # replay settles on nearly coincident pairs
+            from vf import poly
+            a, b = uvs.calls[0], uvs.calls[len(pts)]
+            if is_sym(a[0]) and is_sym(b[0]):
+                chord = symx.real_term((a[0] - b[0]) * (a[0] - b[0]) + (a[1] - b[1]) * (a[1] - b[1]) + (a[2] - b[2]) * (a[2] - b[2]))
+                for wname, (kind, rad) in list(cx.witness_defs.items()):
+                    if kind == "sqrt" and poly.equal(rad, chord, cx.rules) and not poly.equal(rad, chord, []):
+                        cx.check("sphdist: the squared chord is computed as a sum of squared differences (no cancellation for close points)", False)
         cells = r.tolist() if hasattr(r, "tolist") else [r]
         if not isinstance(cells, list):
             cells = [cells]
@@ -320,6 +371,21 @@ def replay(cand):
     what, n, units = cfg[0], cfg[1], tuple(cfg[2])
     base = what.split("_")[0]
     no = {"reproduced": False, "what": "agrees", "key": None}
+    if what == "fpclip":
+        # realised end to end: pairs whose cosine of the separation rounds to just outside [-1, 1] are
+        # (nearly) coincident or antipodal points
+        rng = np.random.RandomState(5)
+        ras = np.concatenate([rng.uniform(0, 360, 4000), np.arange(0.0, 360.0, 7.3)])
+        decs = np.concatenate([rng.uniform(-90, 90, 4000), np.linspace(-89.0, 89.0, ras.size - 4000)])
+        for ra2, dec2, tag in ((ras + 180.0, -decs, "antipodal"), ((ras + 180.0) % 360.0, -decs, "antipodal"), (ras + 1e-9, decs, "nearly coincident"),
+                               (ras + 360.0, decs, "coincident modulo 360")):
+            d = co.gcirc(ras, decs, ra2, dec2)
+            badi = np.where(~np.isfinite(d) | (d < 0) | (d > np.pi + 1e-12))[0]
+            if badi.size:
+                i = int(badi[0])
+                return {"reproduced": True, "key": "gcirc:not-finite",
+                        "what": "gcirc(%r, %r, %r, %r) = %r (%s pair): not a finite angle in [0, pi]" % (ras[i], decs[i], ra2[i], dec2[i], d[i], tag)}
+        return no
     unit_in, unit_out = units
     pts = []
     for i in range(max(n, 1)):
@@ -333,9 +399,19 @@ def replay(cand):
         w = (math.cos(math.radians(ra)) * math.cos(math.radians(dec)), math.sin(math.radians(ra)) * math.cos(math.radians(dec)), math.sin(math.radians(dec)))
         if not np.allclose([x[0], y[0], z[0]], w, atol=1e-12):
             return {"reproduced": True, "key": "eq2xyz", "what": "eq2xyz(%r, %r) = %r, expected %r" % (ra, dec, (x[0], y[0], z[0]), w)}
+        L = np.longdouble
+        d2r = np.arctan(L(1)) * 4 / 180
+        for ra_, dec_ in ((33.0, 89.9999), (211.5, -89.999999), (100.0, 89.99999999), (7.0, 89.9), (300.0, -89.99)):
+            x, y, z = co.eq2xyz(ra_, dec_)
+            w = (np.cos(L(ra_) * d2r) * np.cos(L(dec_) * d2r), np.sin(L(ra_) * d2r) * np.cos(L(dec_) * d2r), np.sin(L(dec_) * d2r))
+            err = max(abs(float(L(a[0]) - b)) for a, b in zip((x, y, z), w))
+            if err > 1e-13:
+                return {"reproduced": True, "key": "eq2xyz:polar-accuracy",
+                        "what": "eq2xyz(%r, %r) is off by %.3g near the pole (1e-13 corresponds to the 1e-11 degree the separations are promised to)" % (ra_, dec_, err)}
         return no
     # adversarial companions of the model's points: the same call shapes with extra pairs
-    extra = [[10.0, 20.0, 190.0, -20.0], [0.0, 0.0, 179.5, 0.0], [359.9, 45.0, 0.1, 45.0], [123.0, 89.9999, 303.0, 89.9999], [50.0, -30.0, 50.0, -30.0]]
+    extra = [[10.0, 20.0, 190.0, -20.0], [0.0, 0.0, 179.5, 0.0], [359.9, 45.0, 0.1, 45.0], [123.0, 89.9999, 303.0, 89.9999], [50.0, -30.0, 50.0, -30.0],
+             [200.0, 35.0, 200.00001, 35.000004], [77.7, -12.0, 77.7000001, -12.0]]
 
     def conv(v, unit):
         return np.deg2rad(v) if unit == "rad" else v
@@ -347,7 +423,7 @@ def replay(cand):
             return co.sphdist(*args, units=[unit_in, unit_out])
         return co.gcirc(*args)
     tol = 1e-9 if base == "sphdist" else 3e-6
-    for pp, scalar in ((pts, n == 0), (pts + extra[: max(0, 3 - len(pts))], False), (extra[:3], False), (extra[1:2], True), (extra[3:5], False)):
+    for pp, scalar in ((pts, n == 0), (pts + extra[: max(0, 3 - len(pts))], False), (extra[:3], False), (extra[1:2], True), (extra[3:5], False), (extra[5:7], False), (extra[5:6], True)):
         if scalar and len(pp) != 1:
             continue
         if what.endswith("_same"):
